@@ -53,6 +53,31 @@ type (
 	Comment struct{ S string } // <%# ... %>
 )
 
+// Composition nodes (C09, C17). KV is one entry of a data hash literal.
+type (
+	KV struct {
+		K string
+		V Expr
+	}
+	EmitPartial struct {
+		Name string
+		Data []KV
+	} // <%= partial("name", {k: v}) %>
+	ContentFor struct {
+		Name string
+		Body []Node
+	} // <% contentFor("name") { %>body<% } %>
+	EmitContentOf struct {
+		Name string
+		Data []KV
+	} // <%= contentOf("name", {k: v}) %>
+	EmitBlock struct {
+		Helper string
+		Data   []KV
+		Body   []Node
+	} // <%= helper({k: v}) { %>body<% } %>: block rendered in a fresh child scope (+data)
+)
+
 type Stmt interface{}
 
 type (
@@ -123,11 +148,17 @@ func (s *scope) lookup(n string) (interface{}, bool) {
 	return nil, false
 }
 
+type stored struct {
+	body []Node
+	def  *scope
+}
+
 type Interp struct {
-	Helpers map[string]Helper
-	sc      *scope
-	unspec  string
-	steps   int
+	Helpers  map[string]Helper
+	Partials map[string][]Node
+	sc       *scope
+	unspec   string
+	steps    int
 }
 
 // Result of running a program.
@@ -158,7 +189,12 @@ func errf(f string, a ...interface{}) error { return &rtErr{fmt.Sprintf(f, a...)
 
 // Run interprets a template given the initial data (top-level scope).
 func Run(prog []Node, data map[string]interface{}, helpers map[string]Helper) Result {
-	in := &Interp{Helpers: helpers, sc: &scope{vars: map[string]interface{}{}}}
+	return RunWith(prog, data, helpers, nil)
+}
+
+// RunWith is Run with a table of partials (name -> template).
+func RunWith(prog []Node, data map[string]interface{}, helpers map[string]Helper, partials map[string][]Node) Result {
+	in := &Interp{Helpers: helpers, Partials: partials, sc: &scope{vars: map[string]interface{}{}}}
 	for k, v := range data {
 		in.sc.vars[k] = v
 	}
@@ -215,11 +251,65 @@ func (in *Interp) nodes(ns []Node, sb *strings.Builder, inLoop, inFn bool) (ctl,
 			if err != nil || c != ctlNone {
 				return c, rv, err
 			}
+		case EmitPartial:
+			body, ok := in.Partials[t.Name]
+			if !ok {
+				return ctlNone, nil, errf("unknown partial %s", t.Name)
+			}
+			if err := in.inChild(in.sc, t.Data, body, sb); err != nil {
+				return ctlNone, nil, err
+			}
+		case ContentFor:
+			// emits nothing; the block is remembered in the current scope
+			in.sc.vars["contentFor:"+t.Name] = &stored{body: t.Body, def: in.sc}
+		case EmitContentOf:
+			v, ok := in.sc.lookup("contentFor:" + t.Name)
+			if !ok {
+				return ctlNone, nil, errf("missing contentOf block %s", t.Name)
+			}
+			st := v.(*stored)
+			if st.def != in.sc {
+				in.unspecified("contentOf used in another scope than its contentFor")
+				return ctlNone, nil, nil
+			}
+			if err := in.inChild(st.def, t.Data, st.body, sb); err != nil {
+				return ctlNone, nil, err
+			}
+		case EmitBlock:
+			if err := in.inChild(in.sc, t.Data, t.Body, sb); err != nil {
+				return ctlNone, nil, err
+			}
 		default:
 			panic(fmt.Sprintf("model: unknown node %T", n))
 		}
 	}
 	return ctlNone, nil, nil
+}
+
+// inChild renders body in a fresh child of parent extended with data (whose
+// values are evaluated in the current scope); what it binds is gone afterwards.
+func (in *Interp) inChild(parent *scope, data []KV, body []Node, sb *strings.Builder) error {
+	child := &scope{vars: map[string]interface{}{}, outer: parent}
+	for _, kv := range data {
+		v, err := in.eval(kv.V)
+		if err != nil {
+			return err
+		}
+		child.vars[kv.K] = v
+	}
+	outer := in.sc
+	in.sc = child
+	defer func() { in.sc = outer }()
+	var tmp strings.Builder
+	c, _, err := in.nodes(body, &tmp, false, false)
+	if err != nil {
+		return err
+	}
+	if c != ctlNone {
+		in.unspecified("control statement escaping a partial / content / helper block")
+	}
+	sb.WriteString(tmp.String())
+	return nil
 }
 
 func (in *Interp) stmt(s Stmt, inLoop, inFn bool) (ctl, interface{}, error) {
